@@ -13,12 +13,15 @@ import (
 	"crypto/sha1"
 	"encoding/binary"
 	"encoding/hex"
+	"errors"
 	"fmt"
 	"net/netip"
+	"os"
 	"reflect"
 	"strings"
 	"unsafe"
 
+	"github.com/cilium/ebpf"
 	"github.com/daeuniverse/dae/common"
 	"github.com/daeuniverse/dae/common/consts"
 	"github.com/daeuniverse/dae/component/outbound/dialer"
@@ -132,6 +135,137 @@ type c03Env struct {
 	cls        map[string]int
 	f8Excluded int
 	f9Excluded int
+
+	// optional layer: real eBPF maps mirroring kernsim's, read by the real Go retrieval code
+	real     *c03RealMaps
+	pending  []c03Pending
+	lastWant map[int]bpfRoutingResult
+}
+
+type c03Pending struct {
+	f        *c03Flow
+	src, dst netip.AddrPort
+	desc     string
+}
+
+// c03RealMaps: real BPF hash maps (bpf(2)) standing in for conn_state_map and
+// routing_handoff_map inside a controlPlaneCore, so that RetrieveRoutingResult itself runs.
+// The stub-build Go value types lack the explicit trailing padding bpf2go emits, so
+// cilium/ebpf can only decode them from exactly binary.Size bytes: the mirror maps use
+// that value size and store the kernel value with the C struct's trailing padding cut.
+type c03RealMaps struct {
+	core          *controlPlaneCore
+	conn, handoff *ebpf.Map
+	connSize      int
+	handoffSize   int
+}
+
+var c03RealUnavailable error
+
+func c03TryRealMaps() (*c03RealMaps, error) {
+	if c03RealUnavailable != nil {
+		return nil, c03RealUnavailable
+	}
+	r := &c03RealMaps{connSize: binary.Size(bpfConnState{}), handoffSize: binary.Size(bpfRoutingHandoffEntry{})}
+	ksize := binary.Size(bpfTuplesKey{})
+	if r.connSize <= 0 || r.handoffSize <= 0 || ksize <= 0 {
+		c03RealUnavailable = fmt.Errorf("Go map types are not fixed-size")
+		return nil, c03RealUnavailable
+	}
+	var err error
+	r.conn, err = ebpf.NewMap(&ebpf.MapSpec{Name: "c03_conn_state", Type: ebpf.Hash, KeySize: uint32(ksize), ValueSize: uint32(r.connSize), MaxEntries: 4096})
+	if err != nil {
+		c03RealUnavailable = fmt.Errorf("bpf(BPF_MAP_CREATE): %w", err)
+		return nil, c03RealUnavailable
+	}
+	r.handoff, err = ebpf.NewMap(&ebpf.MapSpec{Name: "c03_handoff", Type: ebpf.Hash, KeySize: uint32(ksize), ValueSize: uint32(r.handoffSize), MaxEntries: 4096})
+	if err != nil {
+		_ = r.conn.Close()
+		c03RealUnavailable = fmt.Errorf("bpf(BPF_MAP_CREATE): %w", err)
+		return nil, c03RealUnavailable
+	}
+	r.core = &controlPlaneCore{}
+	r.core.bpf.Store(&bpfObjects{bpfMaps: bpfMaps{ConnStateMap: r.conn, RoutingHandoffMap: r.handoff}})
+	return r, nil
+}
+
+func (r *c03RealMaps) Close() {
+	if r != nil {
+		_ = r.conn.Close()
+		_ = r.handoff.Close()
+	}
+}
+
+// mirror applies the map operations of one program run to the real maps, key by key and
+// in order (never a wholesale copy: whatever the Go side did to other keys stays).
+func (e *c03Env) mirror(ops []ksOp) {
+	if e.real == nil {
+		return
+	}
+	seen := map[string]bool{}
+	for _, o := range ops {
+		var m *ebpf.Map
+		size := 0
+		switch {
+		case o.Map == "conn_state_map": // looked-up values are modified in place
+			m, size = e.real.conn, e.real.connSize
+		case o.Map == "routing_handoff_map" && o.Op != 'L':
+			m, size = e.real.handoff, e.real.handoffSize
+		default:
+			continue
+		}
+		id := o.Map + string(o.Key)
+		if seen[id] {
+			continue
+		}
+		seen[id] = true
+		v, ok := e.k.MapLookup(o.Map, o.Key)
+		if ok {
+			if len(v) < size {
+				e.failf("%s: the kernel value has %d bytes, the Go type marshals to %d", o.Map, len(v), size)
+			}
+			for _, b := range v[size:] {
+				if b != 0 {
+					e.failf("%s: kernel value carries data beyond the %d bytes the Go type covers: %x", o.Map, size, v)
+				}
+			}
+			if err := m.Update(o.Key, v[:size], ebpf.UpdateAny); err != nil {
+				ksHarnessFatal("real map update: %v", err)
+			}
+		} else if err := m.Delete(o.Key); err != nil && !errors.Is(err, ebpf.ErrKeyNotExist) {
+			ksHarnessFatal("real map delete: %v", err)
+		}
+	}
+}
+
+// drain: userspace gets round to the redirected packets that are still queued and asks
+// the real RetrieveRoutingResult for each of them.
+func (e *c03Env) drain(only *c03Flow) {
+	if e.real == nil || len(e.pending) == 0 {
+		return
+	}
+	var keep []c03Pending
+	perFlow := map[int]int{}
+	for _, p := range e.pending {
+		if only != nil && p.f != only {
+			keep = append(keep, p)
+			continue
+		}
+		perFlow[p.f.ID]++
+		want := e.lastWant[p.f.ID]
+		res, err := e.real.core.RetrieveRoutingResult(p.src, p.dst, p.f.proto())
+		if err != nil {
+			e.failf("the kernel redirected this packet to dae, but the control plane cannot recover its record: RetrieveRoutingResult(%v, %v, %d) = %v (queued packet #%d of this 5-tuple)\n  %s", p.src, p.dst, p.f.proto(), err, perFlow[p.f.ID], p.desc)
+		}
+		if *res != want {
+			e.failf("RetrieveRoutingResult(%v, %v, %d) differs from the kernel's decision (queued packet #%d of this 5-tuple)\n got  %+v\n want %+v\n  %s", p.src, p.dst, p.f.proto(), perFlow[p.f.ID], *res, want, p.desc)
+		}
+		e.class("real_retrieve_checked")
+		if perFlow[p.f.ID] > 1 {
+			e.class("real_retrieve_queued_same_tuple")
+		}
+	}
+	e.pending = keep
 }
 
 func (e *c03Env) class(c string) { e.cls[c]++ }
@@ -187,12 +321,14 @@ func c03RunDigest(o ksRunOut) []byte {
 
 func (e *c03Env) run(label, prog string, in ksRunIn) ksRunOut {
 	var out ksRunOut
-	in.NoLog = true
+	in.NoLog = e.real == nil
+	defer func() { e.mirror(out.Ops) }()
 	e.exec(label, func(k *ksSim, slow bool) []byte {
 		in2 := in
 		if slow {
 			in2.LinearLen = 0
 			in2.PullFails = true
+			in2.NoLog = true
 		}
 		o := k.Run(prog, in2)
 		if !slow {
@@ -314,7 +450,15 @@ func (e *c03Env) setup(usePeer bool, sockMark uint32, hasTask bool) {
 	}
 	raw := c03Raw(&p)
 	e.exec("param", func(k *ksSim, slow bool) []byte { k.SetParam(raw); return nil })
-	e.setClock(1000 * c03Sec)
+	base := 1000 * c03Sec
+	if e.real != nil {
+		// the real retrieval code compares routing_handoff_map timestamps with CLOCK_MONOTONIC:
+		// keep the simulated kernel clock ahead of it so that entries count as fresh
+		if now, err := monotonicNowNano(); err == nil {
+			base = now + 1000000*c03Sec
+		}
+	}
+	e.setClock(base)
 	for ob := uint8(0); ob < 6; ob++ {
 		for _, tcp := range []bool{true, false} {
 			for _, v6 := range []bool{false, true} {
@@ -747,10 +891,6 @@ func (e *c03Env) checkForward(f *c03Flow, desc string, in ksRunIn, out ksRunOut,
 			e.failf("%s: redirected frame does not carry the original packet", desc)
 		}
 		// hand-over record, recovered the way the control plane does
-		res, where := e.retrieve(goSrc, goDst, f.proto())
-		if res == nil {
-			e.failf("%s: redirected to dae but RetrieveRoutingResult(%v, %v) finds no record (%s)", desc, goSrc, goDst, where)
-		}
 		want := bpfRoutingResult{Mark: x.Dec.Mark, Outbound: x.Dec.Ob, Dscp: f.Pk.Dscp}
 		if x.Dec.Must {
 			want.Must = 1
@@ -767,10 +907,21 @@ func (e *c03Env) checkForward(f *c03Flow, desc string, in ksRunIn, out ksRunOut,
 				want.Pname, want.Pid = f.Pname, f.Pid
 			}
 		}
+		res, where := e.retrieve(goSrc, goDst, f.proto())
+		if os.Getenv("VERIF_C03_REAL_ONLY") != "" && e.real != nil {
+			// sensitivity testing of the real-map layer alone: skip the kernsim-side decode
+			res, where = &want, "skipped"
+		} else if res == nil {
+			e.failf("%s: redirected to dae but RetrieveRoutingResult(%v, %v) finds no record (%s)", desc, goSrc, goDst, where)
+		}
 		if *res != want {
 			e.failf("%s: hand-over record (%s) differs from the kernel's decision\n got  %+v\n want %+v", desc, where, *res, want)
 		}
 		e.class("handover_record_checked_" + where)
+		if e.real != nil {
+			e.lastWant[f.ID] = want
+			e.pending = append(e.pending, c03Pending{f: f, src: goSrc, dst: goDst, desc: desc})
+		}
 		// dae0peer: only frames carrying the mark get in; they come out marked for the tproxy route
 		peer := e.run("dae0peer", "tproxy_dae0peer_ingress", ksRunIn{Meta: ksSkbMeta{Protocol: in.Meta.Protocol, Ifindex: c03DaeIf + 1, IngressIfindex: c03DaeIf + 1, Cb: out.Cb, PktType: 3}, Frame: out.Frame, LinearLen: uint32(len(out.Frame))})
 		if e.verdictName(peer.Verdict) != "OK" || peer.Mark != uint32(e.kc["TPROXY_MARK"]) || peer.SockRefsLeaked != 0 {
